@@ -11,12 +11,18 @@ import (
 	"strings"
 	"sync"
 	"sync/atomic"
+	"time"
 	"unsafe"
+
+	"github.com/fxamacker/cbor/v2"
 
 	"github.com/mycoria/mycoria/frame"
 	"github.com/mycoria/mycoria/m"
+	"github.com/mycoria/mycoria/router"
 
 	"verifharness/core"
+	"verifharness/env"
+	"verifharness/vmesh"
 )
 
 func init() {
@@ -923,6 +929,106 @@ func callerBuffers(res *core.Result, r *rand.Rand, rounds int) {
 	res.Case(fmt.Sprintf("caller-buffers|%d", rounds), true)
 }
 
+// fanOutCopies: the copies a router makes of one frame for several links (announcements and disconnect notices are
+// passed on to every other neighbour) are clones in the sense of the statement: while the hub of a small mesh handles
+// a frame, everything it sends with that frame's identity must equal the frame it received in every byte outside
+// TTL, flow flags and appendix - whatever happened to the copies it already handed to links (a link's writer seals
+// and releases a frame as soon as it gets it) - and no handler may panic on a released buffer.
+func fanOutCopies(res *core.Result, r *rand.Rand, leaves int) {
+	t := &vmesh.Topology{Name: "hub", N: leaves + 2}
+	for i := 1; i <= leaves; i++ {
+		t.Edges = append(t.Edges, [2]int{0, i})
+	}
+	far := leaves + 1
+	t.Edges = append(t.Edges, [2]int{1, far}) // one router behind leaf 1
+	ids := make([]*m.Address, t.N)
+	for i := range ids {
+		ids[i] = env.NewIdentity(r, nil)
+	}
+	ms, err := vmesh.Build(r, t, ids, vmesh.BuildOpts{Labels: vmesh.LabelMode(r.IntN(3)), Introduce: true})
+	if err != nil {
+		res.Inconcl("fan-out mesh: %v", err)
+		return
+	}
+	desc := fmt.Sprintf("hub with %d neighbours", leaves)
+	bad := ""
+	copies := 0
+	ms.OnForward = func(node int, in, out *vmesh.Packet) {
+		if node != 0 || bad != "" {
+			return
+		}
+		copies++
+		a, b := in.Data, out.Data
+		apx := func(d []byte) int {
+			mi := 49 + int(d[48])
+			if len(d) < mi+2 {
+				return len(d)
+			}
+			auth := 64
+			if frame.MessageType(d[4]).IsEncrypted() {
+				auth = 16
+			}
+			return min(len(d), mi+2+(int(d[mi])<<8|int(d[mi+1]))+auth)
+		}
+		ea, eb := apx(a), apx(b)
+		if ea != eb {
+			bad = fmt.Sprintf("a copy sent to node %d has %d bytes before its appendix, the frame received had %d", out.To, eb, ea)
+			return
+		}
+		for i := 0; i < ea; i++ {
+			if i == 1 || i == 2 {
+				continue
+			}
+			if a[i] != b[i] {
+				bad = fmt.Sprintf("a copy sent to node %d differs from the frame received at byte %d (of %d before the appendix)", out.To, i, ea)
+				return
+			}
+		}
+	}
+	if err := ms.Converge(r, false); err != nil {
+		res.Inconcl("fan-out mesh did not converge: %v", err)
+		return
+	}
+	// the neighbour with a router behind it tells the hub that it lost that router (or goes down itself)
+	n1 := ms.Nodes[1]
+	for k := 0; k < 2 && bad == "" && len(ms.Panics) == 0; k++ {
+		time.Sleep(1500 * time.Microsecond)
+		body, _ := cbor.Marshal(&router.DisconnectPingMsg{GoingDown: k == 1, Disconnected: []netip.Addr{ms.Nodes[far].ID.IP}})
+		hdr := router.PingHeader{PingID: r.Uint64() | 1, PingType: "disconnect", AddrHash: n1.ID.Hash, KeyType: n1.ID.Type, PublicKey: n1.ID.PublicKey}
+		hd, _ := cbor.Marshal(&hdr)
+		data := append(append([]byte{1, byte(len(hd))}, hd...), body...)
+		f, err := n1.Inst.BuilderV.NewFrameV1(n1.ID.IP, m.RouterAddress, frame.RouterHopPing, nil, data, nil)
+		if err != nil {
+			res.Inconcl("fan-out: build: %v", err)
+			return
+		}
+		f.SetTTL(0)
+		f.SetSequenceTime(time.Now().Round(time.Millisecond))
+		if err := f.SignRaw(n1.ID.PrivateKey); err != nil {
+			res.Inconcl("fan-out: sign: %v", err)
+			return
+		}
+		f.SetTTL(32)
+		if err := n1.Inst.SwitchV.ForwardByPeer(f, ms.Nodes[0].ID.IP); err != nil {
+			res.Inconcl("fan-out: send: %v", err)
+			return
+		}
+		ms.Drain(vmesh.FIFO, 10000)
+	}
+	wit := map[string]any{"case_id": "fan-out-copies", "mesh": desc}
+	if len(ms.Panics) > 0 {
+		res.Violate("handler-panic:fan-out", fmt.Sprintf("%s: a handler that passes one frame on to several links panicked: %v", desc, ms.Panics[0]), wit)
+		return
+	}
+	if bad != "" {
+		res.Violate("forwarded-copy-differs-from-original", desc+": "+bad, wit)
+		return
+	}
+	res.Count("fan_out_meshes", 1)
+	res.Count("fan_out_copies_compared", int64(copies))
+	res.Case(fmt.Sprintf("fan-out|%d", leaves), true)
+}
+
 func firstDiff(a, b []byte) int {
 	for i := 0; i < len(a) && i < len(b); i++ {
 		if a[i] != b[i] {
@@ -1107,6 +1213,9 @@ func run(c *core.Ctx) {
 	for i := 0; i < c.Q(8, 100); i++ {
 		pipeline(res, core.RNG(fmt.Sprintf("c17/pipeline/%d", i)), 30000, "")
 		pipelineTiers(res, fmt.Sprintf("c17/tier/%d", i), 40000, "")
+	}
+	for i := 0; i < c.Q(6, 60); i++ {
+		fanOutCopies(res, core.RNG(fmt.Sprintf("c17/fanout/%d", i)), 3+i%4)
 	}
 	for i := 0; i < c.Q(4, 40); i++ {
 		callerBuffers(res, core.RNG(fmt.Sprintf("c17/callerbuf/%d", i)), c.Q(150, 1500))
